@@ -325,6 +325,9 @@ def sentinel_attrs():
     return {'vp_u': 'unit', 'vp_m': {'k': [1]}, '_vp_p': -999}
 
 
+FILL_ATTRS = {'missing_value': -9999.0, '_FillValue': -9999.0}
+
+
 def axis_sentinel(dim):
     return {'vp_ax': dim}
 
@@ -333,10 +336,12 @@ def meta_ok(obj, expect):
     """expect: 'carry' | 'drop' ; returns problem text or None"""
     attrs = _attrs_of(obj)
     if expect == 'carry':
-        if freeze(attrs) != freeze(sentinel_attrs()):
+        # (some operands also declare a missing value - FILL_ATTRS, see workloads.common.set_fillattrs - which is metadata like any other)
+        core = {k: v for k, v in attrs.items() if not (k in FILL_ATTRS and v == FILL_ATTRS[k])}
+        if freeze(core) != freeze(sentinel_attrs()):
             return "metadata not carried: attrs=%r" % (attrs,)
     elif expect == 'drop':
-        if 'vp_u' in attrs or 'vp_m' in attrs or '_vp_p' in attrs:
+        if 'vp_u' in attrs or 'vp_m' in attrs or '_vp_p' in attrs or any(k in attrs for k in FILL_ATTRS):
             return "operand metadata leaked into result: attrs=%r" % (attrs,)
     return None
 
@@ -350,13 +355,37 @@ class Ctx(object):
         self.log = []
         self.viol = []
 
+    ambient_on = None
+    AMBIENT = {0: ('indexing.by', 'position', "an option about how [] indexes"),
+               1: ('align.join', 'inner', "an option the library never reads: the join is what the call says, or outer")}
+
     def v(self, prop, key, msg):
+        if self.ambient_on:
+            msg += "  [this call ran while rcParams[%r] was %r - %s - restored right after]" % self.ambient_on
         self.viol.append({"property": prop, "key": key, "msg": msg})
 
-    def call(self, label, fn, operands=(), mutates=(), meta=None, meta_src=None, containers=(), meta_owner='C16'):
+    def call(self, label, fn, operands=(), mutates=(), meta=None, meta_src=None, containers=(), meta_owner='C16', ambient=False):
         """run fn(); operands: objects that must be left unchanged unless listed (by
         identity) in mutates; containers: the lists / dicts the operands were passed in, which
-        must hold the very same objects afterwards.  Returns (result, exception)."""
+        must hold the very same objects afterwards.  Returns (result, exception).
+        ambient=True (for operations that are not [] / take indexing): two such calls in four run while a session option that does
+        not concern them has a non-default value (`indexing.by` = 'position', `align.join` = 'inner') - the operands were built
+        before, under the defaults - and must answer the same."""
+        import zlib
+        self.ambient_on = self.AMBIENT.get(zlib.crc32(label.encode('utf8', 'replace')) % 4) if ambient else None
+        if self.ambient_on:
+            COUNTS['ambient_option_calls:' + self.ambient_on[0]] += 1
+            from . import boot
+            inner = fn
+            opt, val = self.ambient_on[0], self.ambient_on[1]
+
+            def fn():
+                old = boot.da.rcParams[opt]
+                boot.da.rcParams[opt] = val
+                try:
+                    return inner()
+                finally:
+                    boot.da.rcParams[opt] = old
         held = [(c, list(c.items()) if isinstance(c, dict) else list(c)) for c in containers if isinstance(c, (list, dict))]
         snaps = []
         for o in operands:
